@@ -15,19 +15,36 @@ pub struct PlayerTruth {
     pub drops_after_decrease: u64,
     pub stall_resubmissions: u64,
     pub delay_changes: u64,
+    /// every accepted submission: (user frame, value, delay in force, number of delay changes so far)
+    pub subs: Vec<(i32, Inp, usize, u64)>,
+    pub set_delay_calls: u64,
 }
 impl PlayerTruth {
     pub fn new(delay: usize) -> Self {
-        PlayerTruth { delay, last_user: -1, values: vec![], origin: vec![], fills_after_increase: 0, drops_after_decrease: 0, stall_resubmissions: 0, delay_changes: 0 }
+        PlayerTruth { delay, last_user: -1, values: vec![], origin: vec![], fills_after_increase: 0, drops_after_decrease: 0, stall_resubmissions: 0, delay_changes: 0, subs: vec![], set_delay_calls: 0 }
     }
     pub fn last_added(&self) -> i32 {
         self.values.len() as i32 - 1
     }
+    /// The frames an increase opens up are filled right away with the last input (the queue and
+    /// what is announced to the remotes must agree even if the delay changes again before the next
+    /// submission); a decrease makes later submissions be dropped until the queue has caught up.
     pub fn set_delay(&mut self, d: usize) {
         if d != self.delay {
             self.delay_changes += 1;
         }
+        self.set_delay_calls += 1;
         self.delay = d;
+        if self.values.is_empty() {
+            return;
+        }
+        let next_target = self.last_user + 1 + d as i32;
+        let last = *self.values.last().unwrap();
+        for _ in self.last_added() + 1..next_target {
+            self.fills_after_increase += 1;
+            self.values.push(last);
+            self.origin.push(1);
+        }
     }
     /// The owner's session accepted `v` as the input of user frame `f` (an Ok advance_frame call
     /// that was made with current_frame() == f).
@@ -38,6 +55,7 @@ impl PlayerTruth {
             return;
         }
         self.last_user = f;
+        self.subs.push((f, v, self.delay, self.set_delay_calls));
         let target = f + self.delay as i32;
         let expected = self.last_added() + 1;
         if expected > target {
